@@ -23,6 +23,9 @@ if __name__ == "__main__":
     jobs = e.jobs("thorough", 0)
     if len(sys.argv) > 1 and sys.argv[1] == "notrunc":
         jobs = [j for j in jobs if j["what"] != "truncate"]
+    only = os.environ.get("SURVEY_SEEDS")
+    if only:
+        jobs = [j for j in jobs if j.get("seed") in only.split(",")]
     with multiprocessing.get_context("fork").Pool(16) as pool:
         res = pool.map(work, jobs)
     tot = collections.Counter(); ex = {}; n = 0; mx = 0
